@@ -17,7 +17,7 @@ Lang/Interp.v, matrix).  Correspondence / oracle part (this file):
         syntactic positions; the 8 core probes are also compared with the interpreter (c12-matrix) and
         with the documented table (c12-doc, Spec.v).
 """
-import os, sys, collections
+import os, sys, collections, time
 sys.path.insert(0, os.path.dirname(os.path.dirname(os.path.abspath(__file__))))
 from vlib import *
 import proggen, langenc
@@ -34,6 +34,8 @@ CTX = {"x": [1, 2, 3], "n": 1, "s": "ab", "d": {"a": 1, "b": 2}, "recs": [{"a": 
 def canon(r):
     """('ok', text) | ('err', kind code) | ('crash', short description)"""
     rr = r.get("render", r) if isinstance(r, dict) else {}
+    if isinstance(r, dict) and r.get("load_errors"):
+        return ("skip", "template does not load")
     if "ok" in rr:
         return ("ok", rr["ok"])
     if "err" in rr:
@@ -41,13 +43,22 @@ def canon(r):
     return ("crash", json.dumps(r, sort_keys=True)[:160])
 
 
-def render4(items, release=False):
-    """items: list of (template, ctx).  Returns list of 4-tuples of canonical outcomes (MODES order)."""
+def render4(items, release=False, fmt=False):
+    """items: list of (template, ctx).  Returns list of 4-tuples of canonical outcomes (MODES order).
+    fmt: render with a custom formatter installed (bin c12 fmt): prints go through Environment::format."""
     reqs = []
     for src, ctx in items:
         for m in MODES:
-            reqs.append({"templates": {"main": src}, "main": "main", "ctx": ctx, "undefined": m, "ops": ["render"]})
-    res = run_prog(reqs, release=release) if reqs else []
+            if fmt:
+                reqs.append({"src": src, "ctx": ctx, "undefined": m})
+            else:
+                reqs.append({"templates": {"main": src}, "main": "main", "ctx": ctx, "undefined": m, "ops": ["render"]})
+    if not reqs:
+        res = []
+    elif fmt:
+        res = run_json([bin_path("c12", False), "fmt"], reqs)
+    else:
+        res = run_prog(reqs, release=release)
     out = []
     for i in range(len(items)):
         out.append(tuple(canon(res[4 * i + j]) if 4 * i + j < len(res) else ("crash", "no answer") for j in range(4)))
@@ -94,7 +105,7 @@ def undef_form(rng, e):
     if c == 8:
         return ("ifexpr", ("bool", False), e, None)                       # the silent undefined
     if c == 9:
-        return ("filter", "default", u, [e])
+        return ("ifexpr", ("bool", True), ("filter", "default", u, [e]), ("none",))     # parenthesised by the printer
     return ("ifexpr", ("test", "defined", u, [], False), u, e)
 
 
@@ -110,6 +121,10 @@ def inject_expr(e, rng, p):
         new = ("bin", e[1], inject_expr(e[2], rng, p), inject_expr(e[3], rng, p))
     elif t == "cmp":
         new = ("cmp", inject_expr(e[1], rng, p), [(o, inject_expr(r, rng, p)) for o, r in e[2]])
+        if rng.chance(p, 60):
+            # a chain that starts with a membership test (CompareAndPreserve(In) in the engine)
+            cont = rng.choice([("var", "l"), ("var", "k"), ("list", [new[2][0][1]]), ("var", "undef%d" % rng.below(3))])
+            new = ("cmp", new[1], [(rng.choice(["in", "notin"]), cont), (rng.choice(["==", "!="]), rng.choice([("bool", True), ("var", "l"), cont]))])
     elif t in ("and", "or"):
         new = (t, inject_expr(e[1], rng, p), inject_expr(e[2], rng, p))
     elif t == "ifexpr":
@@ -231,6 +246,7 @@ EXTRA_PRINT = [  # not expressible with the operand table
     ("print:list-element", "print-nested", "{{ [@] }}", "u"),
     ("print:map-value", "print-nested", "{{ {'k': @} }}", "u"),
     ("print:join-element", "print-nested", "{{ [@, 1]|join('-') }}", "u"),
+    ("print:join-element-safe-joiner", "print-nested", "{% autoescape true %}{{ [@, 1]|join('-'|safe) }}{% endautoescape %}", "u"),
 ]
 ITER_POS = [
     ("for", "{% for i in @ %}x{% endfor %}"),
@@ -282,7 +298,7 @@ NEVER = [
     ("is-defined", "{{ @ is defined }}", "False"), ("is-not-defined", "{{ @ is not defined }}", "True"),
     ("is-undefined", "{{ @ is undefined }}", "True"), ("is-not-undefined", "{{ @ is not undefined }}", "False"),
     ("default", "{{ @|default(1) }}", "1"), ("d", "{{ @|d('z') }}", "z"), ("default-noarg", "[{{ @|default }}]", "[]"),
-    ("default-bool", "{{ @|default(7, true) }}", "7"), ("default-kw", "{{ @|default(value=3) }}", "3"),
+    ("default-bool", "{{ @|default(7, true) }}", "7"),
     ("if-defined", "{% if @ is defined %}a{% else %}b{% endif %}", "b"),
     ("if-undefined", "{% if @ is undefined %}a{% else %}b{% endif %}", "a"),
     ("guarded", "{% if @ is defined and @ %}a{% else %}b{% endif %}", "b"),
@@ -423,6 +439,31 @@ ITERATING = {"batch": [0], "chain": [0, 1], "groupby": [0], "join": [0], "list":
              "sum": [0], "unique": [0], "zip": [0, 1]}
 
 
+BINOPS = ["+", "-", "*", "/", "//", "%", "**", "~", "==", "!=", "<", "<=", ">", ">=", "in", "not in", "and", "or"]
+OP_EXPRS = (["@ %s 2" % o for o in BINOPS] + ["2 %s @" % o for o in BINOPS] + ["@ %s @" % o for o in BINOPS] + ["@ %s x" % o for o in ("in", "not in", "+", "==")] +
+            ["x %s @" % o for o in ("+", "==", "~")] + ["-@", "not @", "1 < @ < 3", "@ < 2 < 3", "1 < 2 < @", "1 in @ == false", "@ in x == false", "1 not in @ != true",
+             "@ == @ == @", "x[@]", "d[@]", "s[@]", "x[@:2]", "x[:@]", "x[::@]", "x[@][0]", "[@, 1][0]", "{'k': @}['k']", "{'k': @}.k", "(@, 1)[0]",
+             "@(1)", "@.f(1)", "s.upper(@)", "d.get(@)", "range(*@)", "dict(**@)", "dict(a=@)", "[@]|length", "[@]|first", "[@, @]|unique|list", "[@, 1]|sort", "[@]|sum",
+             "[@]|map('upper')|list", "[@]|select|list", "[@]|reject|list", "[@]|min", "[[@]]|first|first", "@ if t else 1", "1 if t else @", "@ if @ else @"])
+TAG_TEMPLATES = ["{% include @ %}", "{% include [@, 'zz'] ignore missing %}x", "{% extends @ %}", "{% import @ as q %}", "{% from @ import q %}",
+                 "{% autoescape @ %}<{{ '<' }}{% endautoescape %}", "{% filter default(@) %}a{% endfilter %}", "{% set ns = namespace(a=1) %}{% set ns.a = @ %}{{ ns.a is defined }}",
+                 "{% for a, b in [@] %}x{% endfor %}", "{% for a, b in [[@, 1]] %}{{ b }}{% endfor %}", "{% with a = @ %}{{ a is defined }}{% endwith %}",
+                 "{% macro m(a=@) %}{{ a is defined }}{% endmacro %}{{ m() }}", "{% macro m(a) %}{{ a is defined }}{% endmacro %}{{ m(@) }}{{ m(a=@) }}",
+                 "{% macro m(a) %}{{ a is defined }}{% endmacro %}{{ m(**@) }}", "{% macro m() %}{{ caller(@) }}{% endmacro %}{% call(a) m() %}{{ a is defined }}{% endcall %}",
+                 "{% set z %}{{ @|default('') }}{% endset %}{{ z }}", "{% set z | default(@) %}{% endset %}[{{ z }}]", "{% for i in x %}{% if @ is defined %}{% break %}{% endif %}{{ i }}{% endfor %}",
+                 "{% for i in x recursive %}{{ loop(@) if i == 1 }}{% endfor %}", "{% for i in x %}{{ loop.cycle(@, 1) }}{% endfor %}", "{% for i in x %}{{ loop.changed(@) }}{% endfor %}"]
+
+
+def operator_cases():
+    out = []
+    for un, ue in SWEEP_UNDEFS:
+        for e in OP_EXPRS:
+            out.append(("op:%s:%s" % (e, un), e.replace("@", ue if ue == "u" else "(" + ue + ")"), True))
+        for t in TAG_TEMPLATES:
+            out.append(("tag:%s:%s" % (t, un), t.replace("@", ue), False))
+    return out
+
+
 def call_src(kind, name, recv, args, kwargs):
     a = list(args) + ["%s=%s" % (k, v) for k, v in kwargs.items()]
     if kind == "filter":
@@ -510,11 +551,34 @@ def main():
     hist = collections.Counter()
     nontriv = set()
     evaluations = 0
-    samples = []
+    phase = {}
+    def tick(name, _t=[chk.t0]):
+        now = time.time()
+        phase[name] = round(now - _t[0], 1)
+        _t[0] = now
+    tick("build+proofs")
 
-    def known_site(site):
+    def known_site(site, row):
+        """a known finding is its exact site AND its exact outcome pattern (k = renders, e = fails)"""
         base = site.split("#")[0]
-        return chk.match_known(lambda k: any(base == s or base.startswith(s + ":") for s in k["match"]["sites"]))
+        pat = "".join("k" if o[0] == "ok" else "e" for o in row)
+        return chk.match_known(lambda k: base in k["match"]["sites"] and k["match"]["pattern"] == pat)
+
+    reported = collections.Counter()
+
+    def report_mono(src, ctx, rel, extra, cap=4, fmt=False):
+        """re-renders in a fresh process (a loaded machine must never produce a false alarm) and reports"""
+        if reported["mono"] >= cap:
+            return
+        row = render4([(src, ctx)], release=rel, fmt=fmt)[0]
+        mv = mono_violation(row)
+        if not mv:
+            hist["unreproducible"] += 1
+            return
+        reported["mono"] += 1
+        rp = {"template": src, "context": ctx, "profile": "release" if rel else "debug", "formatter": "custom" if fmt else "default", "outcomes": row_show(row)}
+        rp.update(extra)
+        chk.violation("success under %s is not the identical success under %s" % (MODES[mv[0]], MODES[mv[1]]), rp)
 
     # ------------------------------------------------------------------------------------------
     # replay: one template (optionally with its probe description) through (ii) and (iii)
@@ -523,8 +587,9 @@ def main():
         rp = json.load(open(chk.replay))["replay"]
         if "template" in rp:
             ctx = rp.get("context", CTX)
-            for rel in (False, True):
-                row = render4([(rp["template"], ctx)], release=rel)[0]
+            fmt = rp.get("formatter") == "custom"
+            for rel in ((False,) if fmt else (False, True)):
+                row = render4([(rp["template"], ctx)], release=rel, fmt=fmt)[0]
                 evaluations += 4
                 mv = mono_violation(row)
                 if mv:
@@ -533,10 +598,21 @@ def main():
                 if "probe" in rp:
                     site, cls, tmpl, operand = rp["probe"]
                     rt, rm = reference_template(site, cls, tmpl, operand)
-                    ref = render4([(rt, ctx)], release=rel)[0][rm] if rt else None
+                    ref = render4([(rt, ctx)], release=rel, fmt=fmt)[0][rm] if rt else None
                     dev = judge_probe(site, cls, row, ref)
-                    if dev and not known_site(site):
+                    k = known_site(site, row) if dev else None
+                    if k:
+                        chk.known_finding(k["id"], k["what"])
+                    if dev and not k:
                         chk.violation("matrix: " + "; ".join(dev), {"template": rp["template"], "context": ctx, "probe": rp["probe"], "outcomes": row_show(row)})
+                if str(rp.get("site", "")).startswith("iterate:filter:"):
+                    badm = [MODES[i] for i in (0, 1) if row[i][0] != "err"]
+                    k = known_site(rp["site"], row) if badm else None
+                    if k:
+                        chk.known_finding(k["id"], k["what"])
+                    if badm and not k:
+                        chk.violation("matrix, iterate site %s: iterating an undefined does not fail under %s" % (rp["site"], " and ".join(badm)),
+                                      {"template": rp["template"], "context": ctx, "outcomes": row_show(row), "site": rp["site"]})
                 if "ast" in rp:
                     body = eval(rp["ast"])
                     model = run_model("C12", "c12", [langenc.request(body, ctx, mode=m)[0] for m in MODES])
@@ -559,36 +635,45 @@ def main():
     ref_items = sorted(set(rt for rt, _ in refs if rt))
     deviations = []       # (site, class, template, row, devs)
     matrix_table = {}
-    for rel in (False, True):
-        rows = render4(items, release=rel)
-        ref_rows = dict(zip(ref_items, render4([(rt, CTX) for rt in ref_items], release=rel)))
+    for rel, fmt in ((False, False), (True, False), (False, True)):
+        rows = render4(items, release=rel, fmt=fmt)
+        ref_rows = dict(zip(ref_items, render4([(rt, CTX) for rt in ref_items], release=rel, fmt=fmt)))
         evaluations += 4 * (len(items) + len(ref_items))
         for (site, cls, tmpl, op), (src, _), row, (rt, rm) in zip(probes, items, rows, refs):
             ref = ref_rows[rt][rm] if rt else None
             dev = judge_probe(site, cls, row, ref)
             mv = mono_violation(row)
-            if not rel:
+            if not rel and not fmt:
                 hist["probe_" + cls] += 1
                 matrix_table[site] = row_show(row)
                 if len(set(o[0] for o in row)) > 1:
                     nontriv.add(src)
+            if fmt:
+                hist["probe_custom_formatter"] += 1
             if mv:
-                chk.violation("success under %s is not the identical success under %s" % (MODES[mv[0]], MODES[mv[1]]),
-                              {"template": src, "context": CTX, "profile": "release" if rel else "debug", "outcomes": row_show(row), "probe": [site, cls, tmpl, op]})
+                report_mono(src, CTX, rel, {"probe": [site, cls, tmpl, op]}, fmt=fmt)
             if dev:
-                deviations.append((site, cls, tmpl, op, src, row, dev, rel))
+                deviations.append((site, cls, tmpl, op, src, row, dev, rel, fmt))
     seen_dev = set()
-    for site, cls, tmpl, op, src, row, dev, rel in deviations:
-        k = known_site(site)
+    for site, cls, tmpl, op, src, row, dev, rel, fmt in deviations:
+        k = known_site(site, row)
         if k:
             chk.known_finding(k["id"], k["what"])
-            hist["probe_known_" + k["id"]] += 0 if rel else 1
+            hist["probe_known_" + k["id"]] += 0 if (rel or fmt) else 1
             continue
-        if site in seen_dev:
+        if site in seen_dev or len(seen_dev) >= 8:
             continue
         seen_dev.add(site)
-        chk.violation("matrix, %s site %s: %s" % (cls, site, "; ".join(dev)),
-                      {"template": src, "context": CTX, "probe": [site, cls, tmpl, op], "profile": "release" if rel else "debug", "outcomes": row_show(row)})
+        rt, rm = reference_template(site, cls, tmpl, op)
+        row = render4([(src, CTX)], release=rel, fmt=fmt)[0]
+        dev = judge_probe(site, cls, row, render4([(rt, CTX)], release=rel, fmt=fmt)[0][rm] if rt else None)
+        if not dev:
+            hist["unreproducible"] += 1
+            continue
+        chk.violation("matrix, %s site %s%s: %s" % (cls, site, " (custom formatter installed)" if fmt else "", "; ".join(dev)),
+                      {"template": src, "context": CTX, "probe": [site, cls, tmpl, op], "profile": "release" if rel else "debug",
+                       "formatter": "custom" if fmt else "default", "outcomes": row_show(row)})
+    tick("matrix probes")
     # the 8 core probes against the interpreter and the documented table
     core_cases = [[s, MODE_CODE[m]] for s in range(8) for m in MODES]
     model_m = run_model("C12", "c12-matrix", core_cases)
@@ -613,6 +698,7 @@ def main():
     kern_matrix_ok = kern_m is not None and kern_m == model_m
     chk.cov["matrix_core"] = {"cells": 32, "engine_interpreter_documentation_agree": 32 - len(core_bad), "kernel_agrees_with_extraction": kern_matrix_ok}
 
+    tick("matrix core + kernel")
     # ------------------------------------------------------------------------------------------
     # (ii) sweep of the built-ins
     # ------------------------------------------------------------------------------------------
@@ -632,6 +718,7 @@ def main():
             s_meta.append((sid, kind, name, pos, pn, expr))
     profiles = (False, True) if chk.thorough else (False,)
     iter_dev = {}
+    iter_seen = {}
     coercion = {}
     for rel in profiles:
         rows = render4(s_items, release=rel)
@@ -640,8 +727,7 @@ def main():
             sid, kind, name, pos, pn, expr = meta
             mv = mono_violation(row)
             if mv:
-                chk.violation("success under %s is not the identical success under %s" % (MODES[mv[0]], MODES[mv[1]]),
-                              {"template": src, "context": CTX, "profile": "release" if rel else "debug", "outcomes": row_show(row), "site": sid})
+                report_mono(src, CTX, rel, {"site": sid}, cap=8)
             if rel:
                 continue
             hist["sweep_" + kind] += 1
@@ -650,28 +736,55 @@ def main():
             if any(o[0] == "crash" for o in row):
                 hist["sweep_crash"] += 1
             # iterating an undefined operand must fail under strict and semistrict
-            if kind == "filter" and pos.isdigit() and int(pos) in ITERATING.get(name, []) and sid.split(":")[3].startswith("u") and pn == "for":
-                bad = [MODES[i] for i in (0, 1) if row[i][0] != "err"]
-                if bad:
-                    iter_dev.setdefault("iterate:filter:%s:%s" % (name, pos), (src, row, bad))
+            # (judged on the print position; a lazy result may defer the failure to the moment it is consumed by `for`)
+            if kind == "filter" and pos.isdigit() and int(pos) in ITERATING.get(name, []) and sid.split(":")[3].split("#")[0] == "u" and pn in ("print", "for"):
+                iter_seen.setdefault(("iterate:filter:%s:%s" % (name, pos), sid), {})[pn] = (src, row)
             if kind == "filter" and pos == "0" and pn == "print" and sid.split(":")[3].startswith("u") and sid.endswith("#0"):
                 coercion[name] = row_show(row)
+    for (key, sid), d in iter_seen.items():
+        if "print" in d and "for" in d:
+            bad = [MODES[i] for i in (0, 1) if d["print"][1][i][0] != "err" and d["for"][1][i] != ("err", 13)]
+            if bad:
+                iter_dev.setdefault(key, (d["print"][0], d["print"][1], bad))
     for site, (src, row, bad) in sorted(iter_dev.items()):
-        k = known_site(site)
+        k = known_site(site, row)
         if k:
             chk.known_finding(k["id"], k["what"])
             hist["sweep_known_" + k["id"]] += 1
         else:
             chk.violation("matrix, iterate site %s: iterating an undefined does not fail under %s" % (site, " and ".join(bad)),
                           {"template": src, "context": CTX, "outcomes": row_show(row), "site": site})
+    ops = operator_cases()
+    o_items = []
+    for oid, e, is_expr in ops:
+        if is_expr:
+            for pn, pt in POSITIONS:
+                o_items.append((pt.replace("@", e), CTX))
+        else:
+            o_items.append((e, CTX))
+    for rel in profiles:
+        rows = render4(o_items, release=rel)
+        evaluations += 4 * len(o_items)
+        for (src, _), row in zip(o_items, rows):
+            if any(o[0] == "skip" for o in row):
+                hist["sweep_operator_syntax_error"] += 0 if rel else 1
+                continue
+            mv = mono_violation(row)
+            if mv:
+                report_mono(src, CTX, rel, {"site": "operator/tag sweep"}, cap=12)
+            if not rel:
+                hist["sweep_operator_or_tag"] += 1
+                if len(set(o[0] for o in row)) > 1:
+                    nontriv.add(src)
     chk.cov["string_coercion_table"] = coercion
     chk.cov["builtins_swept"] = {"filters": len(names["filters"]), "tests": len(names["tests"]), "functions": len(set(names["globals"]) | set(FUNC_CALLS)),
                                  "without_call_table_entry": unlisted, "templates": len(s_items)}
 
+    tick("sweep")
     # ------------------------------------------------------------------------------------------
     # (i) + (ii) generated programs
     # ------------------------------------------------------------------------------------------
-    n = 30000 if chk.thorough else 1200
+    n = 80000 if chk.thorough else 1200
     progs = []
     for j in range(n):
         g = proggen.Gen(chk.rng, {"autoescape": False, "undefined": 15}, max_depth=2 + chk.rng.below(3))
@@ -681,27 +794,39 @@ def main():
             body = inject_body(body, chk.rng, 2 + chk.rng.below(5))
         progs.append((body, ctx))
     g_items = [(proggen.body_src(b), c) for b, c in progs]
-    cases = [langenc.request(b, c, mode=m)[0] for b, c in progs for m in MODES]
-    model = run_model("C12", "c12", cases)
     bad = []
     mono_bad = []
     sizes = collections.Counter()
-    for rel in (False, True):
-        rows = render4(g_items, release=rel)
-        evaluations += 4 * len(g_items)
-        for i, row in enumerate(rows):
-            for j in range(4):
-                if expect_model(row[j]) != model[4 * i + j]:
-                    bad.append((i, j, rel, row[j], model[4 * i + j]))
-            mv = mono_violation(row)
-            if mv:
-                mono_bad.append((i, rel, mv, row))
-            if not rel:
-                pat = "".join("k" if o[0] == "ok" else ("u" if o == ("err", 13) else "e") for o in row)
-                hist["gen_" + pat] += 1
-                sizes["nodes_%d" % (10 * (min(count_nodes(progs[i][0]), 99) // 10))] += 1
-                if len(set(row)) > 1 and count_nodes(progs[i][0]) >= 3:
-                    nontriv.add(g_items[i][0] + json.dumps(g_items[i][1], sort_keys=True))
+    small_cases = []
+    BATCH = 4000
+    for b0 in range(0, len(progs), BATCH):
+        pb, gb = progs[b0:b0 + BATCH], g_items[b0:b0 + BATCH]
+        cases = [langenc.request(b, c, mode=m)[0] for b, c in pb for m in MODES]
+        model = run_model("C12", "c12", cases)
+        if b0 == 0:
+            idx = sorted(range(len(cases)), key=lambda i: len(cases[i]))[:16]
+            small_cases = [(cases[i], model[i]) for i in idx]
+        for rel in (False, True):
+            rows = render4(gb, release=rel)
+            evaluations += 4 * len(gb)
+            for i0, row in enumerate(rows):
+                i = b0 + i0
+                if any(o[0] == "skip" for o in row):
+                    hist["gen_does_not_load"] += 0 if rel else 1
+                    continue
+                for j in range(4):
+                    if expect_model(row[j]) != model[4 * i0 + j]:
+                        bad.append((i, j, rel, row[j], model[4 * i0 + j]))
+                mv = mono_violation(row)
+                if mv:
+                    mono_bad.append((i, rel, mv, row))
+                if not rel:
+                    pat = "".join("k" if o[0] == "ok" else ("u" if o == ("err", 13) else "e") for o in row)
+                    hist["gen_" + pat] += 1
+                    sizes["nodes_%d" % (10 * (min(count_nodes(progs[i][0]), 99) // 10))] += 1
+                    if len(set(row)) > 1 and count_nodes(progs[i][0]) >= 3:
+                        nontriv.add(g_items[i][0] + json.dumps(g_items[i][1], sort_keys=True))
+    tick("generated programs")
     # the relation on the implementation
     seen = set()
     for i, rel, mv, row in mono_bad[:20]:
@@ -716,10 +841,7 @@ def main():
         if src in seen:
             continue
         seen.add(src)
-        r = render4([(src, ctx)], release=rel)[0]
-        mv2 = mono_violation(r) or mv
-        chk.violation("success under %s is not the identical success under %s" % (MODES[mv2[0]], MODES[mv2[1]]),
-                      {"template": src, "context": ctx, "profile": "release" if rel else "debug", "outcomes": row_show(r), "ast": repr(small)})
+        report_mono(src, ctx, rel, {"ast": repr(small)}, cap=12)
     # engine vs interpreter: a disagreement alone is a correspondence failure (no failing input of the property)
     seen = set()
     for i, j, rel, eo, mo in bad[:40]:
@@ -737,17 +859,25 @@ def main():
         seen.add(src)
         r = render4([(src, ctx)], release=rel)[0]
         mm = run_model("C12", "c12", [langenc.request(small, ctx, mode=m)[0] for m in MODES])
+        if all(expect_model(r[q]) == mm[q] for q in range(4)):
+            hist["unreproducible"] += 1
+            continue
+        if mono_violation(r):
+            report_mono(src, ctx, rel, {"ast": repr(small)}, cap=12)
+            continue
         chk.violation("engine differs from the reference interpreter under %s (the relation itself holds on this input)" % MODES[j],
                       {"theorem_or_correspondence": "Lang/Interp.v (run_monotone is proved about it) vs engine", "template": src, "context": ctx,
                        "profile": "release" if rel else "debug", "engine": row_show(r),
                        "interpreter": {m: ("".join(chr(c) for c in x[2:]) if x[:1] == [0] else x) for m, x in zip(MODES, mm)}, "ast": repr(small)}, True)
+    tick("shrinking")
     # kernel cross-check of the extraction on small programs, all four modes
-    small_idx = sorted(range(len(cases)), key=lambda i: len(cases[i]))[:16]
-    kern = kernel_eval("C03.Runner.run", [cases[i] for i in small_idx], "k_C12", imports="Common.Base C03.Runner")
-    kern_ok = kern is not None and all(kern[k] == model[small_idx[k]] for k in range(len(small_idx)))
+    kern = kernel_eval("C03.Runner.run", [c for c, _ in small_cases], "k_C12", imports="Common.Base C03.Runner")
+    kern_ok = kern is not None and len(kern) == len(small_cases) and all(kern[k] == small_cases[k][1] for k in range(len(small_cases)))
 
     # ------------------------------------------------------------------------------------------
-    ok_frac = {m: sum(v for k, v in hist.items() if k.startswith("gen_") and k[4 + i] == "k") / max(1, len(progs)) for i, m in enumerate(MODES)}
+    tick("kernel cross-check")
+    chk.cov["phase_seconds"] = phase
+    ok_frac = {m: sum(v for k, v in hist.items() if k.startswith("gen_") and len(k) == 8 and k[4 + i] == "k") / max(1, len(progs)) for i, m in enumerate(MODES)}
     chk.cov["evaluations"] = evaluations
     chk.cov["distinct_nontrivial"] = len(nontriv)
     chk.cov["rule"] = ("one evaluation = one render of one template under one mode by the engine. Cases: (a) typed random core-fragment programs (depth 2-4) with undefined forms at random expression positions x random contexts, x 4 modes, debug + release, each also run by the extracted interpreter; "
@@ -761,7 +891,7 @@ def main():
     chk.cov["monotonicity_violations_generated"] = len(mono_bad)
     chk.cov["matrix_probe_table"] = {k: matrix_table[k] for k in sorted(matrix_table) if k.startswith("core:") or k.startswith("access:") or k.startswith("print:top") or k.startswith("print:list") or k.startswith("print:map") or k.startswith("print:join") or k.startswith("iterate:for:") or k.startswith("truth:if:")}
     chk.cov["matrix_probes"] = len(probes)
-    chk.cov["kernel_crosscheck"] = {"cases": len(small_idx) + 32, "agree": bool(kern_ok and kern_matrix_ok)}
+    chk.cov["kernel_crosscheck"] = {"cases": len(small_cases) + 32, "agree": bool(kern_ok and kern_matrix_ok)}
     if not chk.violations:
         if ok_frac["lenient"] < 0.35 or ok_frac["strict"] < 0.1:
             chk.violation("generator degenerated: too few programs render", {"theorem_or_correspondence": "tools/proggen.py + injector distribution", "ok_fraction": ok_frac}, True)
